@@ -23,6 +23,7 @@ type c05Scen struct {
 	faultFor  time.Duration // length of the fault period (0 = no faults)
 	seed      int64
 	readBuf   [2]int // reader buffer sizes (client, server); 0 = 40000
+	double    int    // > 0: each "break" makes that many sends in a row fail
 }
 
 var c05Bufs = []int{1, 511, 4096, 16384, 32767, 32768, 32769, 40000, 70000}
@@ -66,6 +67,13 @@ func c05Scenarios(thorough bool) []c05Scen {
 			sc.sizes[1] = nil // one direction only
 		}
 		out = append(out, sc)
+	}
+	// the send that is retried on a re-created stream fails again (two or
+	// three stream errors in a row), in either direction
+	for i, k := range []int{2, 3} {
+		out = append(out, c05Scen{name: "faults-double-break", prepaired: i == 0, seed: int64(700 + i),
+			sizes: [2][]int{pick(14, false), pick(14, false)}, pDrop: 0.02, breaks: 4,
+			faultFor: 8 * time.Second, double: k, readBuf: [2]int{40000, 40000}})
 	}
 	// the relay goes away for good in the middle of a transfer: the
 	// connection has to fail visibly
@@ -136,7 +144,11 @@ func runC05(sc c05Scen) (*lncrun.Session, [2]int, error) {
 					return
 				case <-time.After(d):
 				}
-				s.BreakStreams(rdv, which)
+				if sc.double > 0 {
+					s.FailSends(rdv, which, sc.double)
+				} else {
+					s.BreakStreams(rdv, which)
+				}
 			}
 		}()
 	}
